@@ -38,7 +38,8 @@ class WC(CombinatorialClass[W]):
     just_prefix: the class holds only the word `prefix`.  stats = ((name, letters), ...)."""
 
     def __init__(self, prefix, patterns, alphabet, just_prefix=False, stats=(), hidden=False):
-        self.hidden = bool(hidden)  # a one-word class that does not declare itself an atom (is_atom is optional knowledge)
+        self.lax = hidden == "lax"  # declares the lax minimum size 1 instead of the exact one (the documented lower bound)
+        self.hidden = bool(hidden) and not self.lax  # a one-word class that does not declare itself an atom (optional knowledge)
         self.alphabet = tuple(sorted(alphabet))
         self.prefix = W(prefix)
         self.patterns = tuple(sorted(map(W, set(patterns))))
@@ -72,7 +73,7 @@ class WC(CombinatorialClass[W]):
         return self.just_prefix and not self.hidden
 
     def minimum_size_of_object(self):
-        return len(self.prefix)
+        return min(1, len(self.prefix)) if self.lax else len(self.prefix)
 
     def objects_of_size(self, n, **parameters):
         def ok(w):
@@ -94,18 +95,18 @@ class WC(CombinatorialClass[W]):
     def to_jsonable(self):
         d = super().to_jsonable()
         d.update(prefix=str(self.prefix), patterns=[str(p) for p in self.patterns], alphabet=list(self.alphabet),
-                 just_prefix=int(self.just_prefix), stats=[list(s) for s in self.stats], hidden=int(self.hidden))
+                 just_prefix=int(self.just_prefix), stats=[list(s) for s in self.stats], hidden=2 if self.lax else int(self.hidden))
         return d
 
     @classmethod
     def from_dict(cls, d):
-        return cls(d["prefix"], d["patterns"], d["alphabet"], bool(d["just_prefix"]), [tuple(s) for s in d["stats"]], bool(d.get("hidden", 0)))
+        return cls(d["prefix"], d["patterns"], d["alphabet"], bool(d["just_prefix"]), [tuple(s) for s in d["stats"]], "lax" if d.get("hidden", 0) == 2 else bool(d.get("hidden", 0)))
 
     def to_bytes(self):
         raise NotImplementedError
 
     def key(self):
-        return (self.prefix, self.patterns, self.alphabet, self.just_prefix, self.stats) + (("hidden",) if self.hidden else ())
+        return (self.prefix, self.patterns, self.alphabet, self.just_prefix, self.stats) + (("hidden",) if self.hidden else ()) + (("lax",) if self.lax else ())
 
     def __eq__(self, o):
         return isinstance(o, WC) and self.key() == o.key()
@@ -668,6 +669,24 @@ class ExpandMerge(Simple, DisjointUnionStrategy[WC, W]):
 
     def __repr__(self):
         return "ExpandMerge()"
+
+
+class RemoveFrontLax(RemoveFront):
+    """RemoveFront whose second factor declares the lax minimum size 1 although its prefix has two or more letters (the
+    documented contract of minimum_size_of_object allows any lower bound >= 1): the parent's declared minimum is then larger
+    than the sum of its children's, and shifts must come from the children's declarations."""
+
+    def decomposition_function(self, c):
+        kids = RemoveFront.decomposition_function(self, c)
+        if kids is None or len(kids[1].prefix) < 2:
+            return None
+        return (kids[0], kids[1].with_(hidden="lax"))
+
+    def formal_step(self):
+        return "remove front of prefix (the rest declares a lax minimum size)"
+
+    def __repr__(self):
+        return "RemoveFrontLax()"
 
 
 class RemoveFrontHidden(RemoveFront):
